@@ -14,7 +14,7 @@ func init() { register(genChecksum) }
 // (parseRequestBody, roomHandler decision order) and backend_client.go (the one
 // outgoing POST site): C02.
 func genChecksum(c *ctx) *leanFile {
-	l := c.newLean("Checksum", "api_backend.go", "backend_server.go", "backend_client.go", "backend_configuration.go", "backend_storage_static.go", "backend_storage_etcd.go")
+	l := c.newLean("Checksum", "api_backend.go", "backend_server.go", "backend_client.go", "backend_configuration.go", "backend_storage_static.go", "backend_storage_etcd.go", "http_client_pool.go")
 	api := c.file("api_backend.go")
 	bs := c.file("backend_server.go")
 	bc := c.file("backend_client.go")
@@ -353,7 +353,6 @@ func genChecksum(c *ctx) *leanFile {
 			}
 		}
 	}
-	_ = bc
 	_ = filepath.Join
 
 	// Which backend a URL belongs to (the backend header of a room API request, the target of an outgoing
@@ -493,6 +492,207 @@ func genChecksum(c *ctx) *leanFile {
 		})
 	}
 	l.boolean("etcdStoresCheckedUrl", etcdStores, etcdStores, "EtcdKeyUpdated: info.CheckValid() followed by &Backend{url: info.Url, …} not found")
+
+	// Which configuration a backend's secret comes from.  getConfiguredHosts: the statements that give `secret`
+	// a value or decide on it (own secret of the section, fall-back to the common secret, no secret => skipped)
+	// and `secret: []byte(secret)` in the Backend literal.  Its two callers (startup, Reload): the call, and for
+	// every argument where its value comes from — a parameter of the caller or the statements of the caller that
+	// assign it ("the common secret is read from the configuration that is being loaded").
+	norm := func(n ast.Node) string { return strings.Join(strings.Fields(srcText(c.fset, n)), " ") }
+	var secProg []string
+	okSec := false
+	if fd := findFunc(stat, "", "getConfiguredHosts"); fd != nil && fd.Body != nil {
+		done := false
+		ast.Inspect(fd.Body, func(x ast.Node) bool {
+			rs, ok := x.(*ast.RangeStmt)
+			if !ok || done || !strings.Contains(srcText(c.fset, rs.X), "getConfiguredBackendIDs") {
+				return true
+			}
+			done = true
+			for _, st := range rs.Body.List {
+				mentions, stores := false, false
+				ast.Inspect(st, func(y ast.Node) bool {
+					switch n := y.(type) {
+					case *ast.KeyValueExpr:
+						if isIdent(n.Key, "secret") {
+							if norm(n.Value) == "[]byte(secret)" {
+								stores = true
+							}
+							return false
+						}
+					case *ast.Ident:
+						if n.Name == "secret" {
+							mentions = true
+						}
+					}
+					return true
+				})
+				if stores {
+					okSec = true
+					break
+				}
+				if mentions {
+					secProg = append(secProg, norm(st))
+				}
+			}
+			return false
+		})
+	}
+	l.strList("secretProgram", secProg, okSec, "getConfiguredHosts: loop over getConfiguredBackendIDs(…) storing &Backend{secret: []byte(secret), …} not found")
+
+	hostsCall := func(recv, name string) (string, []string, bool) {
+		fd := findFunc(stat, recv, name)
+		if fd == nil || fd.Body == nil {
+			return "", nil, false
+		}
+		var call *ast.CallExpr
+		n := 0
+		ast.Inspect(fd.Body, func(x ast.Node) bool {
+			if ce, ok := x.(*ast.CallExpr); ok && isIdent(ce.Fun, "getConfiguredHosts") {
+				call = ce
+				n++
+			}
+			return true
+		})
+		if call == nil || n != 1 {
+			return "", nil, false
+		}
+		var defs []string
+		for _, a := range call.Args {
+			id, ok := a.(*ast.Ident)
+			if !ok {
+				defs = append(defs, "expr")
+				continue
+			}
+			var ds []string
+			if fd.Type.Params != nil {
+				for _, f := range fd.Type.Params.List {
+					for _, pn := range f.Names {
+						if pn.Name == id.Name {
+							ds = append(ds, "param:"+pn.Name+" "+norm(f.Type))
+						}
+					}
+				}
+			}
+			// every statement of the caller that assigns the identifier (anywhere: before or after the call)
+			ast.Inspect(fd.Body, func(x ast.Node) bool {
+				switch s := x.(type) {
+				case *ast.AssignStmt:
+					for _, lhs := range s.Lhs {
+						if isIdent(lhs, id.Name) {
+							ds = append(ds, norm(s))
+						}
+					}
+				case *ast.IncDecStmt:
+					if isIdent(s.X, id.Name) {
+						ds = append(ds, norm(s))
+					}
+				case *ast.RangeStmt:
+					if (s.Key != nil && isIdent(s.Key, id.Name)) || (s.Value != nil && isIdent(s.Value, id.Name)) {
+						ds = append(ds, "range")
+					}
+				case *ast.UnaryExpr:
+					if s.Op == token.AND && isIdent(s.X, id.Name) {
+						ds = append(ds, "address-taken")
+					}
+				}
+				return true
+			})
+			if len(ds) == 0 {
+				ds = []string{"?"}
+			}
+			defs = append(defs, strings.Join(ds, " ;; "))
+		}
+		return norm(call), defs, true
+	}
+	callS, defsS, okS := hostsCall("", "NewBackendStorageStatic")
+	l.str("startHostsCall", callS, okS, "NewBackendStorageStatic: exactly one call of getConfiguredHosts expected")
+	l.strList("startHostsArgs", defsS, okS, "NewBackendStorageStatic: exactly one call of getConfiguredHosts expected")
+	callR, defsR, okR := hostsCall("backendStorageStatic", "Reload")
+	l.str("reloadHostsCall", callR, okR, "backendStorageStatic.Reload: exactly one call of getConfiguredHosts expected")
+	l.strList("reloadHostsArgs", defsR, okR, "backendStorageStatic.Reload: exactly one call of getConfiguredHosts expected")
+	// getConfiguredHosts is called from nowhere else
+	nHostsCalls := 0
+	for _, e := range ents {
+		n := e.Name()
+		if e.IsDir() || !strings.HasSuffix(n, ".go") || strings.HasSuffix(n, "_test.go") {
+			continue
+		}
+		if f := c.file(n); f != nil {
+			ast.Inspect(f, func(x ast.Node) bool {
+				if ce, ok := x.(*ast.CallExpr); ok && isIdent(ce.Fun, "getConfiguredHosts") {
+					nHostsCalls++
+				}
+				return true
+			})
+		}
+	}
+	l.nat("configuredHostsCallSites", int64(nHostsCalls), nHostsCalls > 0, "no call of getConfiguredHosts found")
+
+	// Redirects of an outgoing (signed) request: PerformJSONRequest sends through a client of the pool; every
+	// http.Client the pool constructs has a CheckRedirect function — its statements, verbatim.
+	hp := c.file("http_client_pool.go")
+	var redirProg []string
+	nClients, nGuarded := 0, 0
+	if hp != nil {
+		ast.Inspect(hp, func(x ast.Node) bool {
+			cl, ok := x.(*ast.CompositeLit)
+			if !ok || !isSel(cl.Type, "http", "Client") {
+				return true
+			}
+			nClients++
+			for _, el := range cl.Elts {
+				if kv, ok := el.(*ast.KeyValueExpr); ok && isIdent(kv.Key, "CheckRedirect") {
+					if fl, ok := kv.Value.(*ast.FuncLit); ok && fl.Body != nil && fl.Type.Params != nil &&
+						norm(fl.Type) == "func(req *http.Request, via []*http.Request) error" {
+						nGuarded++
+						if redirProg == nil {
+							for _, st := range fl.Body.List {
+								redirProg = append(redirProg, norm(st))
+							}
+						}
+					}
+				}
+			}
+			return true
+		})
+	}
+	l.nat("poolClientLiterals", int64(nClients), nClients > 0, "http_client_pool.go: no http.Client literal found")
+	l.nat("poolClientLiteralsWithCheckRedirect", int64(nGuarded), nClients > 0, "http_client_pool.go: no http.Client literal found")
+	l.strList("checkRedirectProgram", redirProg, len(redirProg) > 0, "http_client_pool.go: http.Client{CheckRedirect: func(req *http.Request, via []*http.Request) error {…}} not found")
+	viaPool := false
+	if fd := findFunc(bc, "BackendClient", "PerformJSONRequest"); fd != nil && fd.Body != nil {
+		t := norm(fd.Body)
+		viaPool = strings.Contains(t, "c, pool, err := b.pool.Get(ctx, u)") && strings.Contains(t, "resp, err := c.Do(req)") &&
+			strings.Count(t, ".Do(") == 1
+	}
+	l.boolean("outgoingSentThroughPoolClient", viaPool, viaPool, "PerformJSONRequest: c, pool, err := b.pool.Get(ctx, u) … resp, err := c.Do(req) (the only Do) expected")
+	// http.Client values are built nowhere else in the package (a client without the guard would follow every redirect)
+	nOtherClients := 0
+	for _, e := range ents {
+		n := e.Name()
+		if e.IsDir() || !strings.HasSuffix(n, ".go") || strings.HasSuffix(n, "_test.go") || n == "http_client_pool.go" {
+			continue
+		}
+		if f := c.file(n); f != nil {
+			for _, d := range f.Decls {
+				fd, ok := d.(*ast.FuncDecl)
+				if !ok || fd.Body == nil || fd.Recv == nil || fd.Name.Name != "PerformJSONRequest" {
+					continue
+				}
+				ast.Inspect(fd.Body, func(x ast.Node) bool {
+					if cl, ok := x.(*ast.CompositeLit); ok && isSel(cl.Type, "http", "Client") {
+						nOtherClients++
+					}
+					if isSel2(x, "http", "DefaultClient") {
+						nOtherClients++
+					}
+					return true
+				})
+			}
+		}
+	}
+	l.nat("outgoingOwnClients", int64(nOtherClients), true, "")
 	l.nat("outgoingPostSites", int64(postSites), postSites > 0, "no outgoing POST request site found in the package")
 	l.nat("outgoingPostSitesSigned", int64(signedSites), postSites > 0, "no outgoing POST request site found in the package")
 	return l
